@@ -884,10 +884,31 @@ func (x *Exec) step(st *State, ins ssa.Instruction) {
 		st.Regs[t] = SliceVal{Reg: reg, Off: o.Idx(0), Len: ln, Cap: cp, Elem: t.Type().Underlying().(*types.Slice).Elem()}
 	case *ssa.Call:
 		before, _ := st.Ghost["reports"].(*Term)
+		x.callPosStack = append(x.callPosStack, t.Pos())
 		v := x.call(st, t, t.Common())
 		if v != nil {
 			st.Regs[t] = v
 		}
+		if x.inlineDepth > 0 && x.fc == nil {
+			// a call made by a callee that is verified through its body: its result stays addressable by
+			// specifications of the root function (callres / callReported), by the chain of call positions
+			key := posChainKey(x.callPosStack)
+			if x.inlinedCallRes == nil {
+				x.inlinedCallRes = map[string]Val{}
+				x.inlinedCallRep = map[string]*Term{}
+			}
+			if v != nil {
+				x.inlinedCallRes[key] = v
+			}
+			if after, _ := st.Ghost["reports"].(*Term); after != nil {
+				b0 := before
+				if b0 == nil {
+					b0 = o.Int(0)
+				}
+				x.inlinedCallRep[key] = o.Lt(b0, after)
+			}
+		}
+		x.callPosStack = x.callPosStack[:len(x.callPosStack)-1]
 		if after, _ := st.Ghost["reports"].(*Term); after != nil && x.inlineDepth == 0 {
 			// whether this call reported to a TestingT (for callReported in specifications)
 			if before == nil {
